@@ -9,6 +9,7 @@ import (
 	"os"
 	"strings"
 	"sync"
+	"sync/atomic"
 	"time"
 
 	tea "github.com/charmbracelet/bubbletea"
@@ -94,7 +95,21 @@ func (o modeOpts) initial() modeSpec {
 	return m
 }
 
-var exitKinds = []string{"quit", "kill", "ctx", "interrupt", "readerr", "panic-update", "panic-cmd", "panic-view", "startup-fail", "tty-hangup-quit", "tty-hangup-kill"}
+var exitKinds = []string{"quit", "kill", "ctx", "interrupt", "readerr", "panic-update", "panic-cmd", "panic-view", "startup-fail", "startup-rawfail", "tty-hangup-quit", "tty-hangup-kill"}
+
+// flakyFdFile is a terminal whose descriptor goes away between the "is it a terminal?" test and
+// the switch to raw mode (a background job, a revoked descriptor): term.MakeRaw fails at start-up.
+type flakyFdFile struct {
+	*os.File
+	calls int32
+}
+
+func (f *flakyFdFile) Fd() uintptr {
+	if atomic.AddInt32(&f.calls, 1) == 1 {
+		return f.File.Fd()
+	}
+	return ^uintptr(0)
+}
 
 func scenModes(out *scenOut, r *rng, thorough bool) {
 	out.Rule = "all 32 subsets of startup options (alt screen, mouse cell/all motion, no bracketed paste, focus) x seeded histories of 0..12 mode commands x 9 exit kinds (incl. start-up failure after terminal initialisation), modes sampled from the output inside Update after every command and after Run returns; distinct = (options, history, exit kind)"
@@ -109,7 +124,7 @@ func scenModes(out *scenOut, r *rng, thorough bool) {
 		for bits := 0; bits < 32; bits++ {
 			o := modeOpts{alt: bits&1 != 0, cell: bits&2 != 0, all: bits&4 != 0, nopaste: bits&8 != 0, focus: bits&16 != 0}
 			for _, ek := range exitKinds {
-				if !thorough && r.chance(1, 2) && ek != "startup-fail" && !strings.HasPrefix(ek, "tty-hangup") {
+				if !thorough && r.chance(1, 2) && !strings.HasPrefix(ek, "startup-") && !strings.HasPrefix(ek, "tty-hangup") {
 					continue
 				}
 				n := r.intn(13)
@@ -182,6 +197,14 @@ func modesOnce(out *scenOut, o modeOpts, ek string, hist []int) {
 		opts = append(opts, tea.WithInput(pp.slave))
 	case "readerr":
 		opts = append(opts, tea.WithInput(errReader{g: readGate, err: errInjectedRead}))
+	case "startup-rawfail":
+		pp, err := openPty()
+		if err != nil {
+			return
+		}
+		defer pp.slave.Close()
+		defer pp.master.Close()
+		opts = append(opts, tea.WithInput(&flakyFdFile{File: pp.slave}))
 	case "startup-fail":
 		// the way a user meets it: input redirected from a regular file, which
 		// the cancelable reader (epoll) rejects
@@ -196,7 +219,7 @@ func modesOnce(out *scenOut, o modeOpts, ek string, hist []int) {
 		opts = append(opts, tea.WithInput(nil))
 	}
 	run := startProgram(ctl, buf, opts...)
-	if ek == "startup-fail" {
+	if strings.HasPrefix(ek, "startup-") {
 		if !run.wait(5 * time.Second) {
 			out.fail(finding{Property: "C05", Class: "new", What: "Run does not return after a start-up failure", Input: desc})
 			return
@@ -262,7 +285,7 @@ func modesOnce(out *scenOut, o modeOpts, ek string, hist []int) {
 	initial := modeSpec{}.String()
 	if got := vtModes(t); got != initial {
 		what := "terminal not restored when Run returns"
-		if ek == "startup-fail" {
+		if strings.HasPrefix(ek, "startup-") {
 			what = "terminal not restored when Run returns after a start-up failure"
 		}
 		out.fail(finding{Property: "C05", Class: "new", What: what, Input: desc, Expected: initial, Observed: got})
